@@ -9,10 +9,9 @@
  * aligned and inside their parents.  The formula contains integers only. */
 #include "verif.h"
 
-#define MAXW 64
-typedef struct { int used; int parent; /* 0 A, 1 B, 2 C, 3 temp */ int r0, c0, r1, c1; mzd_t hdr; } win_t;
-static win_t wins[MAXW];
-static int nwins;
+/* ghost record around every header the stubs hand out (one heap object per call: no symbolic pool
+ * index after the symbolic base-case branch) */
+typedef struct { mzd_t hdr; int parent; /* 0 A, 1 B, 2 C, 3 temp */ int r0, c0, r1, c1; } win_t;
 static mzd_t hA, hB, hC;
 static int gm, gk, gn, gcut;
 
@@ -25,9 +24,11 @@ static void mkhdr(mzd_t *M, int r, int c) {
   M->nrows = r; M->ncols = c; M->width = (c + 63) / 64; M->rowstride = (M->width & 1) ? M->width + 1 : M->width;
   M->high_bitmask = 0; M->flags = 0; M->data = NULL;
 }
-static win_t *find(mzd_t const *M) {
-  for (int i = 0; i < MAXW; ++i) if (i < nwins && &wins[i].hdr == M) return &wins[i];
-  return NULL;
+static win_t *find(mzd_t const *M) { return (win_t *)M; } /* hdr is the first member */
+static win_t *newwin(void) {
+  win_t *w = (win_t *)malloc(sizeof(win_t));
+  __CPROVER_assume(w != NULL);
+  return w;
 }
 /* absolute coordinates of an operand inside A / B / C */
 static int coords(mzd_t const *M, int *parent, int *r0, int *c0, int *r1, int *c1) {
@@ -47,18 +48,16 @@ mzd_t *stub_init_window(mzd_t *M, rci_t lowr, rci_t lowc, rci_t highr, rci_t hig
   VASSERT(lowc % 64 == 0, "window column offset is word aligned");
   VASSERT(0 <= lowr && lowr < highr && highr <= M->nrows, "window rows non-empty and inside the parent");
   VASSERT(0 <= lowc && lowc < highc && highc <= M->ncols, "window columns non-empty and inside the parent");
-  VASSERT(nwins < MAXW, "ledger capacity");
-  win_t *w = &wins[nwins++];
-  w->used = 1; w->parent = p; w->r0 = r0 + lowr; w->c0 = c0 + lowc; w->r1 = r0 + highr; w->c1 = c0 + highc;
+  win_t *w = newwin();
+  w->parent = p; w->r0 = r0 + lowr; w->c0 = c0 + lowc; w->r1 = r0 + highr; w->c1 = c0 + highc;
   mkhdr(&w->hdr, highr - lowr, highc - lowc);
   w->hdr.flags = mzd_flag_windowed;
   return &w->hdr;
 }
 mzd_t *stub_init(rci_t r, rci_t c) {
   VASSERT(r > 0 && c > 0, "temporary has positive dimensions");
-  VASSERT(nwins < MAXW, "ledger capacity");
-  win_t *w = &wins[nwins++];
-  w->used = 1; w->parent = 3; w->r0 = 0; w->c0 = 0; w->r1 = r; w->c1 = c;
+  win_t *w = newwin();
+  w->parent = 3; w->r0 = 0; w->c0 = 0; w->r1 = r; w->c1 = c;
   mkhdr(&w->hdr, r, c);
   return &w->hdr;
 }
